@@ -1305,6 +1305,17 @@ def bank_range_rules(run, R="MPT"):
                 reg = T.dominated_region(f, e, b)
                 if rep2(f, reg) and err_return_in_region(f, reg):
                     d = _deep(f, tt["discr"], 8)
+                    if d.startswith("var:") and op_local(tt["discr"]) is not None:
+                        # a named boolean that the comparison (and constants for the other cases) is assigned to
+                        parts = []
+                        for d_ in f.full_defs(f.copy_root(op_local(tt["discr"]))):
+                            if d_[0] == "stmt" and d_[3]["k"] == "assign":
+                                rv_ = d_[3]["rv"]
+                                if rv_["k"] == "binop":
+                                    parts.append("(%s %s %s)" % (_deep(f, rv_["l"], 8), rv_["op"], _deep(f, rv_["r"], 8)))
+                                elif rv_["k"] == "use":
+                                    parts.append(_deep(f, rv_["op"], 8))
+                        d = " | ".join(parts)
                     dep_size = value_depends_on(f, tt["discr"], sz)
                     if "cur_position" in d and ".size" in d:
                         found = True
